@@ -2322,11 +2322,6 @@ impl<'a> Parser<'a> {
             return self.parse_yield_expression();
         }
 
-        // Check for await expression
-        if self.check(&TokenKind::Await) {
-            return self.parse_await_expression();
-        }
-
         let start = self.current.span;
         let expr = self.parse_conditional_expression()?;
 
@@ -2465,6 +2460,11 @@ impl<'a> Parser<'a> {
     fn parse_unary_expression(&mut self) -> Result<Expression, JsError> {
         self.check_depth()?;
         let start = self.current.span;
+
+        // `await x` is a unary expression: `1 + await x`, `await x + 1`, `!await x`
+        if self.check(&TokenKind::Await) {
+            return self.parse_await_expression();
+        }
 
         if let Some(op) = self.current_unary_op() {
             self.advance();
